@@ -106,6 +106,16 @@ func vfAdvClasses() []vfAdvClass {
 			_, _, rc, W := live(w, to)
 			return w.vfForge(to, vfEncData(!il, rc+W+10, 1, 0, 0, 0, 51, true, true, false, false, []byte("xxxx")))
 		}},
+		// a fragment that claims to belong to a message the receiver already holds COMPLETE (same stream and SSN /
+		// MID, fragment number past the end, E bit): it must not change or block what the application reads
+		{"frag-after-complete", func(w *vfWorld, to int, il bool) []byte {
+			_, _, rc, _ := live(w, to)
+			sid := 1
+			if to == 0 {
+				sid = 2
+			}
+			return w.vfForge(to, vfEncData(il, rc+40, sid, 0, 0, 2, 51, false, true, false, false, []byte("EVIL")))
+		}},
 		{"data-beyond-window", func(w *vfWorld, to int, il bool) []byte {
 			_, _, rc, W := live(w, to)
 			return w.vfForge(to, vfEncData(il, rc+W+10, 9, 0, 0, 0, 51, true, true, false, false, []byte("yyyy")))
@@ -212,7 +222,7 @@ func vfAdvClasses() []vfAdvClass {
 	return cs
 }
 
-var vfAdvSituations = []string{"cookiewait", "idle", "inflight", "gap", "closing-stream", "shutdown-sent", "shutdown-received"}
+var vfAdvSituations = []string{"cookiewait", "idle", "inflight", "gap", "closing-stream", "shutdown-sent", "shutdown-received", "unread"}
 
 // vfAdvSetup drives the pair into the situation; returns false if not reachable.
 func vfAdvSetup(w *vfWorld, sit string) bool {
@@ -235,6 +245,14 @@ func vfAdvSetup(w *vfWorld, sit string) bool {
 	case "inflight":
 		w.write(0, 1, 3*p, 51)
 		w.write(1, 2, 2*p, 53)
+	case "unread":
+		// a complete two-fragment message (first of its stream: SSN / MID 0) sits unread at each receiver
+		w.write(0, 1, 2*p, 51)
+		w.write(1, 2, 2*p, 53)
+		for i := 0; i < 10 && w.pump(20) > 0; i++ {
+		}
+		w.sleep(300 * time.Millisecond)
+		w.pump(20)
 	case "gap":
 		w.write(0, 1, 3*p, 51)
 		pend := w.pending(0)
@@ -280,6 +298,11 @@ func init() {
 							continue
 						}
 						if sit == "cookiewait" && to == 1 {
+							continue
+						}
+						// a fragment for a message that is still incomplete is indistinguishable from a genuine one:
+						// this class is only meaningful against a message the receiver already holds complete
+						if (cl.name == "frag-after-complete") != (sit == "unread") {
 							continue
 						}
 						label := fmt.Sprintf("adv-%s-%s-il%v-to%d#%d", sit, cl.name, il, to, k)
